@@ -1,10 +1,12 @@
 import EgglogVerif.Model.Table
+import EgglogVerif.Model.Index
 namespace Driver
 open EgglogVerif.Table
 
 structure TbSt where
   kind : String := "new"
   t : Table := Table.empty 1
+  ix : Index := Index.fresh 0     -- one cached column index, refreshed only when read (theorem C16_index)
 
 /-- merge functions used by the harness; the row is `keys ++ [val, ts]` or `keys ++ [val]` -/
 def tbMerge (kind : String) (n : Nat) : Row → Row → Option Row :=
@@ -44,7 +46,7 @@ def tbStep (s : TbSt) (toks : List String) : TbSt × String :=
   match toks with
   | ["new", n, kind] =>
     match n.toNat? with
-    | some n => ({ kind := kind, t := Table.empty n }, "ok")
+    | some n => ({ kind := kind, t := Table.empty n, ix := Index.fresh s.ix.col }, "ok")
     | none => (s, "bad-op")
   | "merge" :: rest =>
     let dels := rest.filterMap fun x => if x.startsWith "d:" then parseNats (x.drop 2).toString else none
@@ -54,6 +56,16 @@ def tbStep (s : TbSt) (toks : List String) : TbSt × String :=
   | ["get", k] =>
     match parseNats k with
     | some k => (s, match s.t.getRow k with | some r => showRow r | none => "none")
+    | none => (s, "bad-op")
+  | ["ixnew", c] =>
+    match c.toNat? with
+    | some c => ({ s with ix := Index.fresh c }, "ok")
+    | none => (s, "bad-op")
+  | ["ixlookup", v] =>
+    match v.toNat? with
+    | some v =>
+      let ix := s.ix.refresh s.t
+      ({ s with ix := ix }, showRows (ix.lookup s.t v))
     | none => (s, "bad-op")
   | ["scan"] => (s, showRows s.t.scan)
   | ["len"] => (s, toString s.t.len)
